@@ -39,7 +39,30 @@ SAFE_DEFS = {"a": {"type": ["string", "null"], "enum": ["s", None]}, "b": {"mini
 @st.composite
 def cases(draw):
     d = draw(st.sampled_from(impl.DRAFTS))
-    src = draw(st.integers(0, 13))
+    src = draw(st.integers(0, 14))
+    if src == 14:
+        # one small schema below 24-40 levels of single-branch applicators, and an instance that reaches the
+        # bottom and fails (or passes) there: the work must stay proportional to the depth
+        ws = (["anyOf", "allOf", "oneOf", "items", "properties", "additionalProperties", "not-not"] if d >= 4
+              else ["extends", "type-union", "items", "properties", "additionalProperties", "disallow-disallow"])
+        chain = draw(st.lists(st.sampled_from(ws + ws[:3]), min_size=24, max_size=40))
+        s, bad, good = {"type": "integer"}, "not an integer", 7
+        for w in chain:
+            if w in ("anyOf", "allOf", "oneOf", "extends"):
+                s = {w: [s]}
+            elif w == "type-union":
+                s = {"type": [s]}
+            elif w == "not-not":
+                s = {"not": {"not": s}}
+            elif w == "disallow-disallow":
+                s = {"disallow": [{"disallow": [s]}]}
+            elif w == "items":
+                s, bad, good = {"items": s}, [bad], [good]
+            elif w == "properties":
+                s, bad, good = {"properties": {"k": s}}, {"k": bad}, {"k": good}
+            else:
+                s, bad, good = {"additionalProperties": s}, {"z": bad}, {"z": good}
+        return {"draft": d, "schema": s, "instances": [bad, good, {"k": [bad]}], "flavour": "deep-chain", "probes": 0}
     if src == 13:
         # references to documents elsewhere, retrieved through a handler that fails in some way of its own
         s = {"properties": {k: {"$ref": draw(st.sampled_from(REMOTE_REFS))}
@@ -284,9 +307,9 @@ class C03(Prop):
     ASSUMPTIONS = ["$ref appears only in the 'safe-refs' flavour (references to leaf definitions or to nothing: missing "
                    "members, indices past the end, members of strings), which cannot form cycles; other schemas "
                    "containing $ref are excluded (cycles / non-string $ref are outside the claim)",
-                   "nesting deeper than 12 levels and integers beyond 4000 digits are not generated (CPython limits)",
-                   "hangs are only detected by a 90 s per-case watchdog and reported as inconclusive"]
-    GATES = {"accepted:liberal": 500, "accepted:well-meant": 500, "unusual": 300, "accepted:safe-refs": 200, "accepted:failing-handler": 150,
+                   "instances nested deeper than 40 levels and integers beyond 4000 digits are not generated (CPython limits)",
+                   "a case that does not finish within the per-case watchdog (30 s) or stops a worker's heartbeat (75 s) is reported as a violation: the statement says every entry point finishes"]
+    GATES = {"accepted:liberal": 500, "accepted:well-meant": 500, "unusual": 300, "accepted:safe-refs": 200, "accepted:failing-handler": 150, "accepted:deep-chain": 150,
              "raised:RefResolutionError": 100}
     MIN_NONTRIVIAL = 300
 
